@@ -118,7 +118,12 @@ type Exec struct {
 	negOf        map[int]bool
 	poolMode  int
 	mapOrder  int
-	events    []string // ghost trace helper (debug)
+	events    []string // verifObserve log
+	coverSeq  []string
+	concFails []string
+	modeSplit bool
+	wantWitness bool
+	witness   []ReplayVal
 }
 
 func (e *Exec) fresh(label string, w int) *Term {
@@ -543,6 +548,15 @@ func printableByte(b byte) string {
 
 // assertObl checks one obligation on the current path.
 func (e *Exec) assertObl(c *Term, msg string) {
+	if e.concrete {
+		if !c.IsConst() {
+			panic(engineErr{"concrete run reached a symbolic assertion"})
+		}
+		if c.IsFalse() {
+			e.concFails = append(e.concFails, msg)
+		}
+		return
+	}
 	e.stats.Obligations++
 	ob := &Obligation{Harness: e.harness, Cfg: e.cfg, Msg: msg, Pos: e.curPos}
 	if c.IsTrue() {
